@@ -1,6 +1,8 @@
 (* C11 — vector-space, dot, cross laws, for every coordinate-system signature.  Statements only. *)
 From Coq Require Import Reals Lra Psatz.
 From VP Require Import Lib RLib Spec Compute Tables Spec_planar Spec_spatial1 Spec_spatial2 Spec_lorentz C11_laws.
+From VP Require ObjModel ObjNames NbModel NbApi NbChecks.
+Import ObjNames List.ListNotations.
 Open Scope R_scope.
 
 Theorem C11_planar_addition_laws : forall s1 s2 s3 a1 b1 a2 b2 a3 b3,
@@ -88,3 +90,11 @@ Proof.
   - field. lra.
   - replace (x / n * x + y / n * y) with ((x * x + y * y) * / n) by (field; lra). nra.
 Qed.
+
+(* the same laws hold in numba-compiled code: for these operations every program point of the numba-supported API has the
+   same outcome (class, coordinate system, field expressions over the generated compute definitions) through the
+   Numba overload layer as through the interpreter (T5 table, gen/NbApi*.v; exceptions: the C07 known findings) *)
+Theorem C11_compiled_arithmetic_are_the_interpreted_ones :
+  VP.NbChecks.agree_on [N_add; N_op_add; N_subtract; N_op_sub; N_dot; N_op_matmul; N_cross; N_scale; N_mul; N_rmul; N_div; N_neg; N_pos; N_unit; N_abs; N_pow2; N_pow3; N_scale2D; N_scale3D; N_scale4D; N_np_add; N_np_subtract; N_np_matmul; N_np_absolute; N_np_square; N_np_sqrt; N_np_cbrt; N_np_negative; N_np_positive; N_np_multiply; N_np_true_divide; N_np_power3]%list = true /\
+  Nat.ltb 100 (VP.NbChecks.count_on [N_add; N_op_add; N_subtract; N_op_sub; N_dot; N_op_matmul; N_cross; N_scale; N_mul; N_rmul; N_div; N_neg; N_pos; N_unit; N_abs; N_pow2; N_pow3; N_scale2D; N_scale3D; N_scale4D; N_np_add; N_np_subtract; N_np_matmul; N_np_absolute; N_np_square; N_np_sqrt; N_np_cbrt; N_np_negative; N_np_positive; N_np_multiply; N_np_true_divide; N_np_power3]%list) = true.
+Proof. vm_cast_no_check (conj (eq_refl true) (eq_refl true)). Qed.
